@@ -17,8 +17,13 @@ async fn origins_stream(seed: u64, n: usize, cases: &mut impl Write, outs: &mut 
     let _ = std::fs::remove_dir_all(&tmp);
     std::fs::create_dir_all(&tmp).unwrap();
     let tmp = std::fs::canonicalize(&tmp).unwrap();
+    let mut last_fresh_gap = 0usize;
     for ci in 0..n {
-        let root = tmp.join(format!("c{ci}"));
+        // a third of the random cases walk the directories of the previous case again, with other contents: what
+        // origins() says may depend on nothing but what is on disk now
+        let revisit = ci > MARKERS.len() * 2 && r.chance(1, 3);
+        let root = tmp.join(format!("c{}", if revisit { ci - 1 - last_fresh_gap } else { ci }));
+        last_fresh_gap = if revisit { last_fresh_gap + 1 } else { 0 };
         std::fs::create_dir_all(&root).unwrap();
         let depth = r.below(4) as usize + 1;
         // the first cases walk the marker table one by one (both node types), so every row is exercised
